@@ -5,6 +5,7 @@ import logging
 
 from harness import core
 from harness.pyval import enc, enc_list, Unencodable, strict_eq
+from harness.props import c39_gen
 
 ID = 'C39'
 TITLE = 'RenameChoices renames exactly the mapped choices'
@@ -19,7 +20,14 @@ RULE = ('documents built through the real engine: table T with Choice columns Ch
         'entries, non-object JSON; model only), non-string rename targets (frame only), and the witnesses of the three '
         'repaired defects (run first). A case is non-trivial when the '
         'action changed a cell or a filter, or raised')
-TRUSTED = ['Model/Choices.v is hand-written; tied to the running RenameChoices by evaluating both on the same generated '
+TRUSTED = ['harness/imp2v.py (fail-closed translator Python subset -> monadic Gallina, Lib/PyImp.v): '
+           'ChoiceColumn.rename_choices, both _rename_cell_choice methods, the only-records filter and the filter loop of '
+           'RenameChoices are translated from column.py/useractions.py into coq/gen/Choices_gen.v on every run, proved '
+           'equal to the pieces of the hand model (C39_source_*), and evaluated against the running code on every case; '
+           'the statements of RenameChoices around the translated fragments must match their expected text exactly',
+           'Model/ChoicesPy.v: the typed primitives the library calls map to (dict.get, is_right_type, row_ids membership, '
+           'json.loads(...).items()/AttributeError, encode_object as identity)',
+           'Model/Choices.v is hand-written; tied to the running RenameChoices by evaluating both on the same generated '
            'column contents, filters and rename maps on every run (vm_compute inside Coq)',
            'json.loads/json.dumps: the model works on parsed filters; the harness parses the stored text before and '
            'after (a rewritten filter must parse to the model\'s content; an untouched one must keep its text)',
@@ -30,7 +38,8 @@ ASSUMPTIONS = ['rename maps are dicts str -> str (a non-string target is convert
                'the saved filter text of the column is empty or a JSON object (hypothesis filters_are_objects of '
                'C39_full_statement; other JSON makes .items() raise AttributeError, C39_non_object_filter_raises)',
                'formula columns are not renamed by design (they recalculate); their filters are']
-TECHNIQUE = 'Coq proof over a hand-written model + differential cases through the real engine + naive substitution oracle'
+TECHNIQUE = ('Coq proof over a hand-written model bridged to the code as translated from source on every run (imp2v) '
+             '+ differential cases through the real engine + naive substitution oracle')
 LEVEL_TEXT = ('Kernel-checked theorem C39_full_statement, for all table states, column contents, saved filters and rename '
               'maps (only hypothesis: the filters of the column are empty or JSON objects): RenameChoices succeeds, every '
               "record's cell of the target column is the simultaneous substitution (Choice cells, every element of "
@@ -45,6 +54,10 @@ LEVEL_NOTE = ('Trusted: Coq kernel, json parser/serializer, value encoder. Repai
               'TypeError and a relative-date bound was replaced by its keys (9e0465d).')
 
 logging.disable(logging.CRITICAL)
+
+
+def regenerate(ctx):
+  c39_gen.regenerate(ctx)
 
 CHOICES = ['x', 'y', 'z', 'w']
 COLS = [
@@ -374,6 +387,9 @@ def enc_outcome(e, names, filters_before, exc):
   return '(Ok (%s, %s))' % (enc_cols(slots(e, 'T'), names), core.coq_list(fl))
 
 
+GEN_CASES = []
+
+
 def one_case(ctx, doc, col, ren, judge=True, judge_targets=True, model=True):
   """runs one RenameChoices on a fresh document; returns (coq case or None, witness, violation or None, changed)"""
   e = build_doc(doc)
@@ -385,6 +401,10 @@ def one_case(ctx, doc, col, ren, judge=True, judge_targets=True, model=True):
   fb = filters_of(e)
   ids = [t._id_column.raw_get(i) for i in range(t._id_column.size())]
   names = [x.col_id for x in t.all_columns.values() if (not x.is_formula() or x.col_id == col)]
+  try:
+    scan = c.rename_choices(dict((k, v) for k, v in ren)) if (model and hasattr(c, 'rename_choices')) else None
+  except Exception:           # pylint: disable=broad-except
+    scan = None
   exc = run_action(e, col, ren)
   viol = oracle(before_snap, sb, fb, e, col, ren, exc, judge_targets) if judge else None
   changed = exc is not None or not strict_eq(sb, slots(e, 'T')) or fb != filters_of(e)
@@ -398,6 +418,18 @@ def one_case(ctx, doc, col, ren, judge=True, judge_targets=True, model=True):
       state = '(mkState %s %s %s)' % (core.zlist(ids), enc_cols(sb, names),
                                      core.coq_list(['(%s, %s)' % (core.zlit(cr), enc_filter(txt)) for _, cr, txt in fb]))
       rens = core.coq_list(['(%s, %s)' % (core.strlit(k), core.strlit(v)) for k, v in ren])
+      if scan is not None and (exc is None or isinstance(exc, AttributeError)):
+        mine = [(r, txt) for r, cr, txt in fb if cr == colrefs(e)[col]]
+        if exc is None:
+          after = {r: txt for r, _cr, txt in filters_of(e)}
+          ch = [(r, json.loads(after[r])) for r, txt in mine if after[r] != txt]
+          fexp = '(Some (%s, %s))' % (core.zlist([r for r, _ in ch]), core.coq_list(
+            [core.coq_list(['(%s, %s)' % (core.strlit(k2), enc_entry(v2)) for k2, v2 in j.items()]) for _, j in ch]))
+        else:
+          fexp = 'None'
+        GEN_CASES.append('(mk_gen %s %s %s (%s, %s) %s %s)' % (
+          kind, enc_list(sb[col]), rens, core.zlist(list(scan[0])), enc_list(list(scan[1])),
+          core.coq_list(['(%s, %s)' % (core.zlit(r), enc_filter(txt)) for r, txt in mine]), fexp))
       coq = '(mk_case %s %s %s %s %s %s %s)' % (state, core.strlit(col), kind, core.boollit(c.is_formula()),
                                               core.zlit(colrefs(e)[col]), rens, out)
   return coq, w, viol, changed, exc
@@ -405,6 +437,7 @@ def one_case(ctx, doc, col, ren, judge=True, judge_targets=True, model=True):
 
 def correspond(ctx):
   coq, info = [], []
+  del GEN_CASES[:]
 
   def run(doc, col, ren, stream, judge=True):
     try:
@@ -431,7 +464,7 @@ def correspond(ctx):
     if k['property'] == ID and k.get('kind') == 'fixed' and k.get('witness'):
       w = k['witness']
       run(w['doc'], w['col'], w['ren'], 'regression:' + k['id'])
-  for _ in range(ctx.n(220, 2500)):
+  for _ in range(ctx.n(150, 2500)):
     doc = gen_doc(ctx.rng, 'byvalue')
     run(doc, ctx.rng.choice(TARGETS), gen_renames(ctx.rng), 'main')
   for _ in range(ctx.n(16, 200)):
@@ -447,13 +480,26 @@ def correspond(ctx):
   ctx.log('cases: %d' % len(coq))
   bad = ctx.run_cases('rename', ['Grist.Lib.PyVal', 'Grist.Model.Choices'],
                       "fun c => let '(st, cid, k, f, cr, ren, out) := c in outcome_eqb (rename_action st cid k f cr ren) out",
-                      coq, shard=60,
+                      coq, shard=40,
                       # typed constructor: every component gets its type from here, so all-None / empty lists
                       # inside a case never leave an implicit argument undetermined
                       extra_defs='Definition mk_case (st : state) (cid : str) (k : ckind) (f : bool) (cr : Z) '
                                  '(ren : renames) (out : result outcome) := (st, cid, k, f, cr, ren, out).')
   for i in bad[:5]:
     ctx.broken('correspondence:model rename_action differs from RenameChoices', 'case %r' % (info[i],))
+  # the functions translated from the source this run, on the same inputs: rename_choices against the real method,
+  # the filter loop against the filter records the action rewrote
+  badg = ctx.run_cases('gen', ['Grist.Lib.PyVal', 'Grist.Lib.PyImp', 'Grist.Model.Choices', 'Grist.Model.ChoicesPy',
+                               'GristGen.Choices_gen'],
+                       "fun c => let '(k, data, ren, sc, recs, fexp) := c in scan_ok (rename_choices k data ren) sc && "
+                       "filters_ok (rename_filter_records ren recs) fexp",
+                       GEN_CASES, shard=70,
+                       extra_defs='Definition mk_gen (k : ckind) (data : list val) (ren : renames) (sc : list Z * list val) '
+                                  '(recs : list frec) (fexp : option (list Z * list (list (str * fentry)))) := '
+                                  '(k, data, ren, sc, recs, fexp).')
+  ctx.extra['translated_function_cases'] = len(GEN_CASES)
+  for i in badg[:3]:
+    ctx.broken('correspondence:translated rename_choices / filter loop differs from the running code', GEN_CASES[i][:600])
 
 
 def search(ctx):
